@@ -1,6 +1,7 @@
 package props
 
 import (
+	"fmt"
 	"strings"
 
 	"gcacheck/internal/an"
@@ -83,12 +84,43 @@ func runC19(c *an.Ctx) {
 			continue
 		}
 		// (defer spills results into a local; the term forwards the stored constant)
-		kv, isConst := fi.Term(ret.Results[0]).IsConst()
+		rt := fi.Term(ret.Results[0])
+		kv, isConst := rt.IsConst()
 		if !isConst {
-			c.Undecided("PRED", allow, ret.Pos(), an.KeyOf(allow, "return-shape"), "Allow returns a non-constant", "shape not recognised")
+			// the answer is a computed condition R: the call must be recorded exactly when R holds, and R must be the limit test
+			nTrue++
+			okR := false
+			if rt.K == an.KBin && rt.S == "<" && rt.A[0].K == an.KLen {
+				if fld, _, ok := mapFieldOfTerm(rt.A[0].A[0]); ok && fld == "reqs" {
+					if f2, _, ok := mapFieldOfTerm(rt.A[1]); ok && f2 == "limit" {
+						okR = true
+					}
+				}
+			}
+			c.Check(okR, "PRED", allow, ret.Pos(), an.KeyOf(allow, "admit-pred"), "the answer is the limit test len(kept) < limit on the list as it is after expiry and before this call is recorded", "returned condition "+short(rt.Key()))
+			recorded := false
+			for _, st := range recordStores(fi, allow, nowT) {
+				if fi.FactsAt(st).Has(rt.Key()) {
+					recorded = true
+				}
+			}
+			c.Check(recorded, "PRED", allow, ret.Pos(), an.KeyOf(allow, "admit-records"), "the call's timestamp is appended exactly on the path where the returned condition holds", "record stores under the returned condition")
 			continue
 		}
 		if kv != "true" {
+			// a refusal: only when the limit is reached
+			okFull := false
+			for _, f := range fi.FactsAt(ret) {
+				t := f.T
+				if !f.Neg && t.K == an.KBin && t.S == "<=" && t.A[1].K == an.KLen {
+					if fld, _, ok := mapFieldOfTerm(t.A[1].A[0]); ok && fld == "reqs" {
+						if f2, _, ok := mapFieldOfTerm(t.A[0]); ok && f2 == "limit" {
+							okFull = true
+						}
+					}
+				}
+			}
+			c.Check(okFull, "PRED", allow, ret.Pos(), an.KeyOf(allow, "refuse-pred"), "false is returned only under limit <= len(kept): a call is admitted whenever fewer than the limit remain in the window (no starvation)", "facts "+factList(fi.FactsAt(ret)))
 			continue
 		}
 		nTrue++
@@ -147,9 +179,41 @@ func runC19(c *an.Ctx) {
 		}
 		c.Check(okApp, "PRED", allow, ret.Pos(), an.KeyOf(allow, "admit-records"), "the admitted call's timestamp (the time.Now() read in this call) is appended to the list before true is returned", "store of append(reqs, now)")
 	}
+	// a recorded call is an admitted call: from every store that appends now to the list, only admitting returns are reachable
+	for _, st := range recordStores(fi, allow, nowT) {
+		okOnly := true
+		why := ""
+		seen := map[*ssa.BasicBlock]bool{}
+		var walk func(b *ssa.BasicBlock)
+		walk = func(b *ssa.BasicBlock) {
+			if seen[b] || b == allow.Recover {
+				return
+			}
+			seen[b] = true
+			if len(b.Instrs) > 0 {
+				if ret, ok := b.Instrs[len(b.Instrs)-1].(*ssa.Return); ok && len(ret.Results) == 1 {
+					rt := fi.Term(ret.Results[0])
+					if k, isC := rt.IsConst(); isC {
+						if k != "true" {
+							okOnly = false
+							why = "return false at " + p.Pos(ret.Pos()) + " is reachable after the append"
+						}
+					} else if !fi.FactsAt(st).Has(rt.Key()) {
+						okOnly = false
+						why = "the returned condition " + short(rt.Key()) + " is not known to hold where the call is recorded"
+					}
+				}
+			}
+			for _, s := range b.Succs {
+				walk(s)
+			}
+		}
+		walk(st.Block())
+		c.Check(okOnly, "PRED", allow, st.Pos(), an.KeyOf(allow, "record-implies-admit"), "a call whose timestamp is appended to the list is always answered true (refused calls leave the list unchanged, so they cannot starve later callers)", why)
+	}
 	c.Count("PRED", nTrue)
 	if nTrue == 0 {
-		c.Undecided("PRED", allow, allow.Pos(), an.KeyOf(allow, "no-true"), "Allow never returns true", "shape not recognised")
+		c.Violated("PRED", allow, allow.Pos(), an.KeyOf(allow, "no-true"), "Allow has no admitting return", "no return of true or of the limit test")
 	}
 
 	// retention: the only time comparison is stored.After(now.Add(-rate))
@@ -195,7 +259,7 @@ func runC19(c *an.Ctx) {
 		}
 	}
 	if nCmp != 1 {
-		c.Undecided("PRED", allow, allow.Pos(), an.KeyOf(allow, "retain-count"), "expected exactly one time comparison in Allow", "shape not recognised")
+		c.Violated("FORM", allow, allow.Pos(), an.KeyOf(allow, "retain-count"), "the expiry step must decide retention by exactly one comparison of a stored timestamp with now-rate; found "+fmt.Sprint(nCmp), "the sliding-window rules are established for this form only")
 	}
 	// kept suffix: reqs = reqs[idx:] or reqs[:0]
 	nSl := 0
@@ -242,7 +306,7 @@ func runC19(c *an.Ctx) {
 		}
 	}
 	if nSl != 2 {
-		c.Undecided("PRED", allow, allow.Pos(), an.KeyOf(allow, "kept-count"), "expected the two reslicings reqs[idx:] and reqs[:0]", "shape not recognised")
+		c.Violated("FORM", allow, allow.Pos(), an.KeyOf(allow, "kept-count"), "the expiry step must store either the suffix that starts at the first unexpired timestamp (reqs[idx:]) or, when none is unexpired, the empty list (reqs[:0]); found "+fmt.Sprint(nSl)+" reslicing store(s): some path keeps expired entries or drops unexpired ones", "the sliding-window rules are established for this form only")
 	}
 }
 
@@ -274,4 +338,38 @@ func recvOrigin(fi *an.FuncInfo, v ssa.Value) string {
 		}
 	}
 	return ""
+}
+
+// recordStores: the stores to RateLimiter.reqs of append(reqs, now).
+func recordStores(fi *an.FuncInfo, allow *ssa.Function, nowT *an.Term) []*ssa.Store {
+	var out []*ssa.Store
+	for _, b2 := range allow.Blocks {
+		for _, in := range b2.Instrs {
+			st, ok := in.(*ssa.Store)
+			if !ok {
+				continue
+			}
+			cls := fi.RefClass(st.Addr)
+			if f, ok := cls.FieldOf("RateLimiter"); !ok || f != "reqs" {
+				continue
+			}
+			call, ok := st.Val.(*ssa.Call)
+			if !ok {
+				continue
+			}
+			bi, ok := call.Call.Value.(*ssa.Builtin)
+			if !ok || bi.Name() != "append" {
+				continue
+			}
+			for _, el := range an.VarargElems(call.Call.Args[1]) {
+				if el == nil {
+					continue
+				}
+				if fi.Term(el).Key() == nowT.Key() {
+					out = append(out, st)
+				}
+			}
+		}
+	}
+	return out
 }
